@@ -1,7 +1,8 @@
 import Afkak.ClientNet
 import Afkak.ClientTrace
 import Afkak.Monitor.C08
-/-! Open statements of C08 (full strength, not proved). -/
+/-! Statements of C08 that were/are open.  `C08_invalidated_topic_reloads_before_send` is PROVED (AfkakProps/C08.lean);
+    `C08_recovers_within_retry_budget` is open and FALSE as stated (`C08_recovers_within_retry_budget_counterexample`). -/
 namespace Afkak.Props.C08.Open
 open Afkak.ClientNet Afkak.ClientCache
 
@@ -55,7 +56,12 @@ def ConsistentWith (L : Layout) (cfg : Cfg) (whatOf : Nat → Option ReqWhat) : 
      | .close _ | .cancel _ | .down _ | .bootLost _ | .bootFail _ => False
      | _ => True) ∧ ConsistentWith L cfg whatOf (step cfg st env e).1 rest
 
-/-- **C08, third sentence** (full strength, NOT proved; exercised end to end by `harness/lib/e2e_recovery.py` with the
+/-- **C08, third sentence** (full strength, NOT proved, and false as stated:
+    `C08_recovers_within_retry_budget_counterexample` in AfkakProps/C08.lean - the run may contain a clock step that lets
+    the third send's request time out; a true version must add that no request of the run times out, that bootstrap
+    connections answer with the layout too (`bootReply` is unconstrained by `ConsistentWith`), and that topic names /
+    partition ids of the layout are unique (`Layout.leader` takes the FIRST entry, the client's dicts keep the LAST);
+    exercised end to end by `harness/lib/e2e_recovery.py` with the
     real Producer and Consumers): after any finite sequence of leader moves, broker restarts and address changes
     (any reachable state of the client), once the cluster has settled into a layout `L` whose leaders are listed
     brokers, a caller that keeps re-sending a request for keys of `L` - in a run where every completion is the
